@@ -18,7 +18,13 @@ def resfault_stage(rep, tier, work):
         raise ToolError("the deviation MCResourceFault_skip does not violate SafeBeforeReport:\n" + neg["stdout"][-1500:])
     n = 144 if tier == "quick" else 2160          # multiples of the 144 enumerated combinations (72 x policies from files / by config.set)
     tr = work / "resfault.ndjson"
-    tpv(["resfault-run", "--seed", seed(), "--runs", n, "--out", tr], timeout=3000)
+    # in chunks of 144 runs, one process each (the endpoint fixtures of the live-configuration runs leave threads behind)
+    with open(tr, "w") as out:
+        for off in range(0, n, 144):
+            part = work / f"resfault.{off}.ndjson"
+            tpv(["resfault-run", "--seed", seed(), "--offset", off, "--runs", min(144, n - off), "--out", part], timeout=3000)
+            out.write(part.read_text())
+            part.unlink()
     rows = read_ndjson(tr)
     runs = split_runs(rows)
     verdict, _ = validate_trace("ResourceFaultTrace", tr, tag="trace-c08-resfault")
